@@ -463,6 +463,22 @@ func ruleL6(c *Ctx) {
 	c.check(n >= 2, "L6", "sites", token.NoPos, fmt.Sprintf("%d step-back decisions found (frozen minimum 2)", n))
 }
 
+
+// L8: classification and type accumulation read the parameter before its slot is recycled (the C13-K5 analysis on the
+// two parameter-list wrappers).
+func ruleL8(c *Ctx) {
+	t := &Ctx{Prog: c.Prog, Prop: c.Prop}
+	ruleK5(t)
+	for _, o := range t.obls {
+		if strings.Contains(o.Key, "ParseAllURIParams") || strings.Contains(o.Key, "ParseAllURIHdrs") {
+			o.Key = "L8:" + strings.TrimPrefix(o.Key, "K5:")
+			o.Rule = "L8"
+			c.obls = append(c.obls, o)
+		}
+	}
+	c.expectMin("L8", 4)
+}
+
 func init() {
 	register(&PropDef{
 		ID: "C17",
@@ -472,6 +488,7 @@ func init() {
 			{"L3", "separator/terminator selection: decision table of the prologue over the option bits (sep '&' iff AmpSep|URIHdr else ';'; term '?' iff QmTerm|URIParam, else ',' iff CommaTerm, else none); the wrappers add exactly their documented options", ruleL3},
 			{"L4", "list wrappers count, classify (URIParamResolve, case-insensitive, six names) and accumulate type flags on every completed parameter as unconditional statements", ruleL4},
 			{"L7", "the automaton extracted from ParseTokenParam equals the reviewed reference table (ref/ParseTokenParam.txt): for every state and byte class the next state or exit, the verdict set, the field actions with their arguments (locals other than the scan index abstracted) and the returned offset; a transition that loses an action, changes target, verdict or byte class shows up as a missing and an extra row", func(c *Ctx) { fsmRefRule(c, "L7", "ParseTokenParam") }},
+			{"L8", "the parameter-list wrappers read the parameter just parsed (its name for URIParamResolve, its type for the Types summary) before the overflow slot it may live in is Reset(): no read through the slot pointer follows the recycling in the same iteration", ruleL8},
 			{"L6", "stepping back to the separator: where a branch chooses between returning X-1 (the separator before the token just seen) and X with the same verdict, the X arm is taken only when the dominating facts entail X <= offs — the returned offset is the separator whenever the separator lies inside this call's region", ruleL6},
 			{"L5", "buffer exhaustion gives more-bytes in every state without the end-of-input option; with it, every state has a finalisation (open name/value closed, open quote stays more-bytes)", ruleL5},
 		},
